@@ -5,6 +5,8 @@ import GixModel.Lemmas.C09Bytes
 import GixModel.Lemmas.C09Total
 import GixModel.Lemmas.C09V1
 import GixModel.Lemmas.C09MTotal
+import GixModel.Lemmas.C09PrefixTotal
+import GixModel.Lemmas.C09MRound
 /-
 C09 — Pack and multi-pack index lookups agree with a linear scan.  PROPERTY THEOREMS ONLY.
 
@@ -521,5 +523,88 @@ theorem accepted_midx_offset_at (data : Bytes) (f : MidxFile) (h : MidxFile.at d
   rw [h] at hr; injection hr with hr
   obtain ⟨_, ha⟩ := h2 f hr.symm
   exact MidxFile.packAndOffsetAt_spec ha hi
+
+/-! ### byte-level round trip of the multi-pack-index writer -/
+
+open GixModel.C09M in
+/-- Byte-level round trip for the multi-pack-index gitoxide writes: the tables `midxBuild` computes
+for ANY set of packs (any offsets below 2^64), laid out as `write_from_index_paths` does — header,
+table of contents, PNAM with its NUL terminators and padding, OIDF, OIDL, OOFF, LOFF if needed,
+trailer — are accepted by `multi_index::File::at`, and the byte-level accessors give back the fan-out,
+the index names, every id and, for every entry, the pack and offset (through the LOFF chunk where
+needed). Index names: any strictly ascending NUL-free byte strings. -/
+theorem midx_bytes_roundtrip (packs : List PackIn) (hp : Packs packs)
+    (hofs : ∀ p ∈ packs, ∀ e ∈ p.entries, e.2 < 18446744073709551616) (hnp : packs.length < 4294967296)
+    (names : List Bytes) (hnames : NamesOk names) (hnn : names.length < 4294967296)
+    (tr : Bytes) (htr : tr.length = 20) :
+    ∃ x, midxBuild packs = some x ∧
+      ((mWrite names x tr).length < 18446744073709551616 →
+        ∃ f, MidxFile.at (mWrite names x tr) = some (.ok f) ∧ f.fan = x.fan ∧ f.names = names ∧
+          f.numIndices = names.length ∧ f.numObjects = (midxEntries packs).length ∧
+          TableOk f.fan f.oidAt ((midxEntries packs).map (·.id)) ∧
+          ∀ i (hi : i < (midxEntries packs).length),
+            f.oidAt i = some (midxEntries packs)[i].id ∧
+            f.packAndOffsetAt i = some ((midxEntries packs)[i].pack, (midxEntries packs)[i].offset)) := by
+  obtain ⟨x, hb, henc⟩ := midxBuild_encodable packs names hp.len20 hp.collect_small hofs hnp hnames hnn
+  obtain ⟨x', hb', hids, hok, _, hat⟩ := midxBuild_spec packs hp.len20 hp.collect_small
+  rw [hb] at hb'; injection hb' with hb'; subst hb'
+  refine ⟨x, hb, ?_⟩
+  intro hsz
+  obtain ⟨f, hf, hfan, hn, hnm, hni, hoid, hpo⟩ := mWrite_accessors names x tr henc htr hsz
+  have hlen : x.ids.length = (midxEntries packs).length := by rw [hids]; simp
+  have hget : ∀ i (hi : i < (midxEntries packs).length), f.oidAt i = some (midxEntries packs)[i].id := by
+    intro i hi
+    rw [hoid i (by rw [hlen]; exact hi)]
+    simp [hids]
+  refine ⟨f, hf, hfan, hnm, hni, by rw [hn, hlen], ?_, fun i hi => ⟨hget i hi, hpo i _ (hat i hi)⟩⟩
+  rw [← hids]
+  exact { sorted := hok.sorted, len20 := hok.len20, fanOk := by rw [hfan]; exact hok.fanOk, small := hok.small,
+          get := fun i hi => hoid i hi }
+
+-- non-vacuity: the two packs of `exPacks` written with their index file names, opened again from the bytes
+open GixModel.C09M in
+example : NamesOk [[112, 45, 48, 46, 105, 100, 120], [112, 45, 49, 46, 105, 100, 120]] := ⟨by decide, by decide⟩
+open GixModel.C09M in
+example : (do let x ← midxBuild exPacks
+              let r ← MidxFile.at (mWrite [[112, 45, 48, 46, 105, 100, 120], [112, 45, 49, 46, 105, 100, 120]] x (List.replicate 20 7))
+              match r with
+              | .ok f => some (f.numObjects, f.numIndices, f.packAndOffsetAt 0, f.packAndOffsetAt 1)
+              | .error _ => none) = some (2, 2, some (1, 77), some (0, 4294967296)) := by decide +kernel
+
+/-! ### `lookup_prefix` never panics either — on any accepted file, sorted or not -/
+
+/-- On ANY accepted pack index (V1 or V2, ids in any order, fewer than 2^31 objects) `lookup_prefix`
+is panic-free for every prefix `Prefix::new` makes from a 20-byte id, with and without `candidates`. -/
+theorem accepted_index_lookup_prefix_total (data : Bytes) (f : File) (h : File.at data = some (.ok f))
+    (hsmall : f.numObjects < 2147483648) (id : Bytes) (hid : id.length = 20) (hl : Nat) (p : Prefix)
+    (hp : Prefix.new id hl = some p) (withCand : Bool) :
+    ∃ r, f.lookupPrefix p withCand = some r := by
+  obtain ⟨r, hr, h2⟩ := File.at_total data
+  rw [h] at hr; injection hr with hr
+  obtain ⟨_, ha⟩ := h2 f hr.symm
+  obtain ⟨hpb, hph⟩ := Prefix.new_shape hid hp
+  have hn' : f.fan[255]'(by rw [ha.fanLen]; omega) = f.numObjects := by
+    have := ha.count
+    rw [List.getElem?_eq_getElem (by rw [ha.fanLen]; omega)] at this; injection this
+  exact lookupPrefixWith_total ha.fanLen
+    (fun b hb => by rw [← hn']; exact fanMonotone_le f.fan ha.mono _ _ (by omega) (by rw [ha.fanLen]; omega))
+    (fun i hi => File.oidAt_total ha hi) hsmall hpb hph withCand
+
+open GixModel.C09M in
+/-- The same for ANY accepted multi-pack-index. -/
+theorem accepted_midx_lookup_prefix_total (data : Bytes) (f : MidxFile) (h : MidxFile.at data = some (.ok f))
+    (hsmall : f.numObjects < 2147483648) (id : Bytes) (hid : id.length = 20) (hl : Nat) (p : Prefix)
+    (hp : Prefix.new id hl = some p) (withCand : Bool) :
+    ∃ r, f.lookupPrefix p withCand = some r := by
+  obtain ⟨r, hr, h2⟩ := MidxFile.at_total data
+  rw [h] at hr; injection hr with hr
+  obtain ⟨_, ha⟩ := h2 f hr.symm
+  obtain ⟨hpb, hph⟩ := Prefix.new_shape hid hp
+  have hn' : f.fan[255]'(by rw [ha.fanLen]; omega) = f.numObjects := by
+    have := ha.count
+    rw [List.getElem?_eq_getElem (by rw [ha.fanLen]; omega)] at this; injection this
+  exact lookupPrefixWith_total ha.fanLen
+    (fun b hb => by rw [← hn']; exact C14.fanMonotone_le f.fan ha.mono _ _ (by omega) (by rw [ha.fanLen]; omega))
+    (fun i hi => MidxFile.oidAt_total ha hi) hsmall hpb hph withCand
 
 end GixModel.Props.C09
